@@ -555,7 +555,7 @@ func (w *cliWorld) peerSaw(raw string) {
 func (w *cliWorld) queueReply(q *creq) {
 	w.nrep++
 	pay := fmt.Sprintf("r%d", w.nrep)
-	rep := peerReply{Seq: w.seq(), Arrive: -1, Payload: pay}
+	rep := peerReply{Seq: w.seq(), Arrive: -1, Payload: pay, ForID: q.ID}
 	switch w.r.Sch.Weighted("replykind", []int{6, 3}) {
 	case 1:
 		rep.IsErr = true
@@ -585,7 +585,7 @@ func (w *cliWorld) queueReply(q *creq) {
 func (w *cliWorld) queueDefective(q *creq) {
 	w.nrep++
 	pay := fmt.Sprintf("bad%d", w.nrep)
-	rep := peerReply{Seq: w.seq(), Arrive: -1, Payload: pay, IsErr: true}
+	rep := peerReply{Seq: w.seq(), Arrive: -1, Payload: pay, IsErr: true, ForID: q.ID}
 	switch w.r.Sch.Int("defectkind", 3) {
 	case 0:
 		rep.Raw = fmt.Sprintf(`{"jsonrpc":"1.0","id":%s,"result":{"r":"%s"}}`, q.ID, pay)
